@@ -5,7 +5,7 @@
    calls of any length, arbitrary (equal, past, negative) time points, arbitrary idents (duplicates), arbitrary clock
    readings; every interleaving of the worker with foreign schedule / cancel / tick / spurious wake-up / stop events;
    every sequence of interval-generator / stop-token operations. *)
-From Cocls Require Import Base BaseProofs TimerDefs TimerProofs Timer2Proofs Timer3Proofs.
+From Cocls Require Import Base BaseProofs TimerDefs TimerProofs Timer2Proofs Timer3Proofs Timer4Proofs.
 Require Import Sorted.
 Local Open Scope Z_scope.
 
@@ -174,6 +174,15 @@ Theorem c12_interval_stop_cancels : forall ops g, let s := istate tag ist0 ops i
     (forall g', g' <> g -> gen_of s1 g' = gen_of s g' /\ stop_of s1 g' = stop_of s g').
 Proof. exact interval_stop_cancels. Qed.
 Print Assumptions c12_interval_stop_cancels.
+
+(* callback-style sleepers ("you can schedule anything": make_promise(handler) passed to schedule) whose completion handler
+   re-enters the scheduler — cancels another sleep and/or arms a new one — from inside cancel / remove+resolve /
+   get_expired+resolve, nested to any depth: every call returns (no out-of-bounds access, no unbounded re-entry), the
+   array stays a heap and holds each pending promise exactly once *)
+Theorem c12_tx_no_crash : forall ops,
+  length (tx_run ops) = length ops /\ Forall (fun ob => exists t, ob = 0 :: t \/ ob = 1 :: t) (tx_run ops).
+Proof. exact tx_no_crash. Qed.
+Print Assumptions c12_tx_no_crash.
 
 (* the property oracle run on implementation traces accepts every trace of the model: it is not stricter than what is proved *)
 Theorem c12_oracle_sound : forall ops, timer_oracle ops (timer_run ops) = true.
